@@ -9,14 +9,14 @@ META = {
     "text": "Rfc8888.tla (per-SSRC log over unwrapped numbers, first-copy arrival times, per-stream size budget, cursor over "
             "the gap-free prefix, arrival-time-offset encoding, marshalled length) is model checked exhaustively at a scaled "
             "modulus with the clauses of C08 stated over independent history variables; TLC enumerates every "
-            "boundary-alphabet behaviour at the real 2^16 modulus (sequence deltas, clock deltas around the offset "
-            "saturation, size limits around the header/padding boundaries, 1-3 SSRCs) and these plus TLC random walks and "
+            "boundary-alphabet behaviour at the real 2^16 modulus (sequence deltas, microsecond clock deltas on both sides "
+            "of the 1/1024 s offset boundaries and of the saturation, size limits around the header/padding boundaries, 1-3 SSRCs) and these plus TLC random walks and "
             "seeded long histories are executed on the real rfc8888.Recorder and, end to end, on SenderInterceptor with "
             "injected ticker and clock; every recorded report (blocks as a set keyed by SSRC, every entry, the report "
             "timestamp and len(Marshal())) must be the one the specification computes.",
     "note": "Trusted: the reading of the property in Rfc8888.tla (numbers below the cursor are dropped, equal split of the "
             "limit between streams rounded to whole 32-bit words, unwrapper semantics of C20 incl. floor at zero, ECN of a "
-            "duplicated packet = first copy's or CE); pion/rtcp Marshal; clocks are whole milliseconds; NTP conversion "
+            "duplicated packet = first copy's or CE); pion/rtcp Marshal; clocks are whole microseconds; NTP conversion "
             "itself is C20 (timestamp compared within one 2^-16 s unit). Concurrency of Read/Close is C10/C11 "
             "(the reader hand-off blocks without a running loop; the harness always binds the writer first).",
     "technique": "TLA+ spec + TLC model checking, TLC-generated behaviours replayed into the Go code, recorded traces validated by TLC",
@@ -36,7 +36,12 @@ NTP_UNIX = 2208988800
 BASES = [1700000000, 0, 1700000000 + (65535 - (1700000000 + NTP_UNIX) % 65536), 946684800]
 ALL_SEQ = "{1, 2, 5, 0, 101, 103, 200}"
 ALL_SIZES = "{12, 19, 20, 26, 28, 30, 36, 1199, 1200, 1201}"
-ALL_CLK = "{0, 1, 125, 1000, 7999, 8000, 64500}"
+# clock deltas in microseconds: the alphabet of DESIGN.md (0, 1 ms, 125 ms, 1 s, 7.999 s, 8 s, 64.5 s) ...
+ALL_CLK = "{0, 1000, 125000, 1000000, 7999000, 8000000, 64500000}"
+# ... and just below / (at) / just above k/1024 s = k * 976.5625 us for k = 1, 8189, 8190, 8191, 8192
+FINE = [1, 976, 977, 7997070, 7997071, 7998046, 7998047, 7999023, 7999024, 7999999, 8000000, 8000001]
+FINE_CLK = "{0, " + ", ".join(str(x) for x in FINE) + "}"
+MAX_CLK = 2000000000            # every clock value stays below 2^31 microseconds
 
 
 def to_script(beh, level, base, icpt_max=0):
@@ -56,12 +61,13 @@ def to_script(beh, level, base, icpt_max=0):
 
 
 def random_script(rng, level, n, nstreams, icpt_max=0):
+    """Seeded long history; clock values are microseconds (kept below MAX_CLK)."""
     ssrcs = rng.sample(range(1, 2 ** 31 - 1), nstreams)
     pos = {s: rng.choice([0, 1, 3, 65500, 65534, 32760, rng.randrange(65536)]) for s in ssrcs}
-    first = dict(pos)
     pending = {s: [] for s in ssrcs}
     recent = {s: [] for s in ssrcs}
-    clk = rng.choice([10, 500, 1000, 999999])
+    arrivals = []                      # recent arrival clock values (targets for boundary-aged reports)
+    clk = rng.choice([10000, 500000, 1000000, 999999000])
     steps = []
     small = [12, 19, 20, 26, 27, 28, 29, 30, 36, 44, 100, 101, 102, 103, 104]
     every = rng.choice([5, 20, 60])
@@ -71,12 +77,22 @@ def random_script(rng, level, n, nstreams, icpt_max=0):
                       "ecn": (rng.choice([0, 0, 0, 1, 2, 3]) if ecn is None else ecn) if level == "rec" else 0})
         recent[s].append(true_n)
         del recent[s][:-20]
+        arrivals.append(clk)
+        del arrivals[:-6]
 
     for s in ssrcs:
         add(s, pos[s])
     for _ in range(n):
-        clk += rng.choice([0, 0, 1, 1, 2, 5, 20, 33, 125, 250, 1000]) if rng.random() < 0.97 else \
-            rng.choice([7998, 7999, 8000, 8001, 20000, 63999, 64000, 64500, 70000, 131072])
+        q = rng.random()
+        if q < 0.55:
+            d = rng.choice([0, 0, 1000, 1000, 2000, 5000, 20000, 33000, 125000, 250000, 1000000])
+        elif q < 0.97:
+            d = rng.choice([1, 7, 976, 977, 1953, 1954, rng.randrange(40000), rng.randrange(300000)])
+        else:
+            d = rng.choice([7998000, 7999000, 8000000, 8001000, 20000000, 63999000, 64000000, 64500000, 70000000, 131072000]
+                           + FINE[3:])
+        if clk + d <= MAX_CLK:
+            clk += d
         s = rng.choice(ssrcs)
         r = rng.random()
         if r < 0.62:
@@ -95,12 +111,20 @@ def random_script(rng, level, n, nstreams, icpt_max=0):
             add(s, rng.choice(recent[s]))                  # duplicate with a later arrival time and maybe another mark
         elif r < 0.82:
             old = pos[s] - rng.choice([1, 3, 10, 600, 5000])
-            if old >= first[s] - first[s] % 65536:         # stay above the unwrapper's zero (the floor is C20's subject)
+            if old >= 0:                                   # stay above the unwrapper's zero (the floor is C20's subject)
                 add(s, old)
         else:
             if rng.random() < 1.0 / every * 5 or r > 0.97:
                 mx = icpt_max or (1200 if rng.random() < 0.5 else rng.choice(small + [rng.randrange(12, 1500)]))
-                now = clk - rng.choice([1, 2, 50]) if rng.random() < 0.08 and clk > 100 else clk
+                now = clk
+                p = rng.random()
+                if p < 0.08 and clk > 100000:              # report time before the latest arrivals
+                    now = clk - rng.choice([1, 2, 1000, 50000])
+                elif p < 0.30:                             # a logged arrival is exactly a boundary age old
+                    now = rng.choice(arrivals) + rng.choice(FINE)
+                    if now > MAX_CLK:
+                        now = clk
+                    clk = max(clk, now)
                 steps.append({"a": "build", "now": now, "max": mx})
     steps.append({"a": "build", "now": clk, "max": icpt_max or 1200})
     base = rng.choice(BASES)
@@ -133,13 +157,16 @@ def families(quick):
     la, lb, lc = (3, 3, 3) if quick else (5, 4, 4)
     fam = []
     for base in ([65530, 0] if quick else [65530, 0, 32760, 2]):
-        fam.append(("seq-%d" % base, {"NS": 1, "Base": base, "L": la if base in (65530, 0) else la - 1, "SeqD": ALL_SEQ, "ClkA": "{1}", "ClkB": "{0}",
+        fam.append(("seq-%d" % base, {"NS": 1, "Base": base, "L": la if base in (65530, 0) else la - 1, "SeqD": ALL_SEQ, "ClkA": "{1000}", "ClkB": "{0}",
                                       "Sizes": "{1200, 26, 28}", "PastSizes": "{}", "Jump": 0}))
-    fam.append(("clock", {"NS": 1, "Base": 100, "L": lb, "SeqD": "{1, 0}", "ClkA": "{0, 125}", "ClkB": ALL_CLK,
+    fam.append(("clock", {"NS": 1, "Base": 100, "L": lb, "SeqD": "{1, 0}", "ClkA": "{0, 125000}", "ClkB": ALL_CLK,
                           "Sizes": "{1200}", "PastSizes": "{1200}", "Jump": 0}))
+    # the age of the packet just added is exactly the report's clock delta: both sides of every 1/1024 s boundary
+    fam.append(("clock-fine", {"NS": 1, "Base": 100, "L": lb, "SeqD": "{1}", "ClkA": "{0}", "ClkB": FINE_CLK,
+                               "Sizes": "{1200}", "PastSizes": "{1200}", "Jump": 0}))
     for ns, jump in ([(1, 700), (2, 0), (2, 700), (3, 700)] if quick else [(1, 0), (1, 700), (2, 0), (2, 700), (3, 0), (3, 700)]):
         fam.append(("size-%d-%d" % (ns, jump), {"NS": ns, "Base": 65000, "L": lc if ns < 3 or not quick else 2,
-                                               "SeqD": "{1, 2}" if ns < 3 else "{1}", "ClkA": "{1}",
+                                               "SeqD": "{1, 2}" if ns < 3 else "{1}", "ClkA": "{1000}",
                                                "ClkB": "{0}", "Sizes": ALL_SIZES, "PastSizes": "{}", "Jump": jump}))
     return fam
 
@@ -194,7 +221,7 @@ def run(ctx):
         "a wire number denotes the true number the unwrapper of C20 assigns (nearest to the previous packet, floor at zero)",
         "ECN of a packet received several times: the first copy's mark, or CE if any copy carried CE (RFC 8888 section 3.1); the "
         "begin number of an empty block and the order of blocks are not compared",
-        "clock values are whole milliseconds below 2^31; the report timestamp is compared within one unit of 2^-16 s (C20 owns NTP)",
+        "clock values are whole microseconds below 2^31 (35 min per script); the report timestamp is compared within one unit of 2^-16 s (C20 owns NTP)",
         "interceptor level: Read returns after the loop took the packet and a tick is accepted only when the loop is back in its "
         "select, so the script order is the Recorder's order; the maximum report size is set through an in-package option",
         "Go toolchain go1.24.0 from the module cache, pion/rtcp v1.2.17 Marshal trusted",
